@@ -1064,8 +1064,11 @@ impl<'a> Visitor<'a> {
             return Ok(None);
         }
 
-        let message = self.visit_expr(debug_rule.value)?;
-        let message = message.inspect(debug_rule.span)?;
+        // a string is logged as its text, without quotes
+        let message = match self.visit_expr(debug_rule.value)? {
+            Value::String(text, ..) => text,
+            value => value.inspect(debug_rule.span)?,
+        };
 
         let loc = self.map.look_up_span(debug_rule.span);
         self.options.logger.debug(loc, message.as_str());
@@ -1626,8 +1629,11 @@ impl<'a> Visitor<'a> {
     }
 
     fn visit_warn_rule(&mut self, warn_rule: AstWarn) -> SassResult<()> {
-        let value = self.visit_expr(warn_rule.value)?;
-        let message = value.to_css_string(warn_rule.span, false)?;
+        // a string is logged as its text, without quotes
+        let message = match self.visit_expr(warn_rule.value)? {
+            Value::String(text, ..) => text,
+            value => value.to_css_string(warn_rule.span, false)?,
+        };
         self.emit_warning(&message, warn_rule.span);
 
         Ok(())
